@@ -201,7 +201,8 @@ def run(ctx):
         "TLC enumerates (A) every string up to length N over {a,SP,TAB,',\",\\,-} and (B) every quoted rendering of "
         "token lists; each emitted behaviour is replayed on TokenParser/StringArgs/ArgvArgs and compared; a case is "
         "non-trivial when the string contains a quote or backslash, or yields >= 2 tokens; plus seeded random lists/"
-        "strings validated by TokenizerTrace"
+        "strings (shell punctuation, exotic whitespace), long plain runs and quotes alternating up to 1100/2500 levels deep "
+        "validated by TokenizerTrace; word lists also run through a full application in string and argv form"
     )
     ctx.assumptions += [
         "whitespace = {SP,TAB,VT} in exhaustive runs; SP,TAB,LF,CR,FF,VT,FS,NEL,NBSP,EM SPACE,IDEOGRAPHIC SPACE in recorded traces (other str.isspace() characters are not exercised)",
